@@ -42,3 +42,10 @@ for kind in ("udp", "tcp"):
                 f.write(f'  Kind = "{kind}"\n  KeepAlive = {ka}\n  Retries = {r}\n  T = 4\n  CT = 40\n  NCallers = 1\n  NReq = 3\n')
                 f.write('  Faults <- FaultsFull\n  ConnOuts = {"ok"}\n  MaxConnFail = 99\n  Offsets = {0}\n  Gaps = {0, 2}\n')
                 f.write("  Strict = TRUE\n  Horizon = 4000\n  Fx <- FxAll\n  Assume = FALSE\nINVARIANT CNoViolation\n")
+        # concurrent callers (scripts of the assumption alphabet, retries = 1)
+        for nc, nreq in ((2, 1), (2, 2), (3, 1)):
+            with open(os.path.join(HERE, f"Conform_{kind}_{k}_c{nc}x{nreq}.cfg"), "w") as f:
+                f.write("SPECIFICATION CSpec\nCHECK_DEADLOCK FALSE\nCONSTANTS\n")
+                f.write(f'  Kind = "{kind}"\n  KeepAlive = {ka}\n  Retries = 1\n  T = 4\n  CT = 40\n  NCallers = {nc}\n  NReq = {nreq}\n')
+                f.write('  Faults <- FaultsFull\n  ConnOuts = {"ok"}\n  MaxConnFail = 99\n  Offsets = {0}\n  Gaps = {0, 2}\n')
+                f.write("  Strict = TRUE\n  Horizon = 4000\n  Fx <- FxAll\n  Assume = TRUE\nINVARIANT CNoViolation\n")
